@@ -307,7 +307,7 @@ func checkC35(c *Ctx, r *Report) {
 			r.ok("C35.R2", key, m.Pos(s.pos), "compared value derives from the lowered query")
 		default:
 			// a parameter compared inside a helper whose callers pass the constant (token == field)
-			if _, isParam := strip(s.x).(*ssa.Parameter); isParam && (s.fn.Name() == "hasToken" || s.fn.Name() == "indexOf") {
+			if _, isParam := strip(s.x).(*ssa.Parameter); isParam && (shortName(s.fn) == "hasToken" || shortName(s.fn) == "indexOf") {
 				r.ok("C35.R2", key, m.Pos(s.pos), "helper")
 				continue
 			}
